@@ -1,0 +1,91 @@
+//go:build verif
+
+package types
+
+// Contracts for the deductive checker in /verif (comment-only; compiled only with -tags verif).
+// Ghost functions T, Sum, Ended, Count are declared in /verif/specs/lib/50_vesting.spec.
+
+/*@
+// floor of a*S/Tot for 0 <= S <= Tot: between 0 and a, and never over-counting
+lemma FloorBounds(a int, S int, Tot int)
+    requires a >= 0 && S >= 0 && Tot > 0 && S <= Tot
+    ensures goquo(a * S, Tot) >= 0 && goquo(a * S, Tot) <= a && goquo(a * S, Tot) * Tot <= a * S
+
+lemma MulCancel(a int, b int, c int)
+    requires c > 0 && a * c <= b * c
+    ensures a <= b
+lemma MulDistrib(a int, b int, c int)
+    ensures (a + b) * c == a * c + b * c && c * (a + b) == c * a + c * b
+
+// ghost functions only read the first i periods
+lemma SumFrame(p Periods, q Periods, i int)
+    requires forall k int :: 0 <= k && k < i ==> p[k].Amount == q[k].Amount
+    ensures Sum(p, i) == Sum(q, i)
+    induction i above 0
+
+// replacing one element changes the prefix sum by the difference
+lemma SumUpdate(p Periods, q Periods, j int, n int)
+    requires 0 <= j && j < n
+    requires forall k int :: 0 <= k && k < n && k != j ==> p[k].Amount == q[k].Amount
+    ensures cadd(Sum(q, n), p[j].Amount) == cadd(Sum(p, n), q[j].Amount)
+    use SumFrame(p, q, j)
+    induction n above j + 1
+
+// a per-period split is a split of the totals
+lemma SumSplit(p Periods, a Periods, b Periods, n int)
+    requires forall k int :: 0 <= k && k < n ==> cadd(a[k].Amount, b[k].Amount) == p[k].Amount
+    ensures cadd(Sum(a, n), Sum(b, n)) == Sum(p, n)
+    induction n above 0
+
+lemma SumNonneg(p Periods, n int)
+    requires forall k int :: 0 <= k && k < n ==> cnonneg(p[k].Amount)
+    ensures cnonneg(Sum(p, n))
+    induction n above 0
+
+// ------------------------------------------------------------------ C11: splitting a lockup schedule
+func SubtractAmountFromPeriods
+    let P = minuendPeriods
+    let d = subtrahend.Denom
+    let S = subtrahend.Amount
+    let Tot = Sum(minuendPeriods, len(minuendPeriods))[subtrahend.Denom]
+    let dec = decreasedPeriods
+    let dif = diffPeriods
+    let n = len(minuendPeriods)
+    requires amounts: forall k int :: 0 <= k && k < len(minuendPeriods) ==> cnonneg(minuendPeriods[k].Amount)
+    requires coin: subtrahend.Amount >= 0
+    ensures err: (result.2 != nil) == (Tot < S || Tot == 0)
+    ensures shape: result.2 == nil ==> len(result.0) == n && len(result.1) == n
+            && (forall k int :: 0 <= k && k < n ==> result.0[k].Length == P[k].Length && result.1[k].Length == P[k].Length)
+    ensures split: result.2 == nil ==> (forall k int :: 0 <= k && k < n ==> cadd(result.0[k].Amount, result.1[k].Amount) == P[k].Amount
+            && cnonneg(result.0[k].Amount) && cnonneg(result.1[k].Amount) && result.1[k].Amount == cone(d, result.1[k].Amount[d]))
+    ensures total: result.2 == nil ==> Sum(result.1, n)[d] == S
+    use entry SumNonneg(minuendPeriods, len(minuendPeriods))
+    // ---- loop 1: proportional split
+    loop 1 invariant idx: 0 <= #i && #i <= n && len(dec) == n && len(dif) == #i && Tot > 0 && S <= Tot && S >= 0
+            && minuendDenom == d && subtrahendAmount == S && minuendTotalAmount == Tot
+    loop 1 invariant done: forall k int :: 0 <= k && k < #i ==> dec[k].Length == P[k].Length && dif[k].Length == P[k].Length
+            && cadd(dec[k].Amount, dif[k].Amount) == P[k].Amount && cnonneg(dec[k].Amount) && cnonneg(dif[k].Amount)
+            && dif[k].Amount == cone(d, dif[k].Amount[d])
+    loop 1 invariant todo: forall k int :: #i <= k && k < n ==> dec[k] == P[k]
+    loop 1 invariant sub: totalSubtracted == Sum(dif, #i)[d] && totalSubtracted >= 0
+            && totalSubtracted * Tot <= S * Sum(P, #i)[d]
+    loop 1 back use FloorBounds(P[#i - 1].Amount[d], S, Tot)
+    loop 1 back use MulDistrib(head(totalSubtracted), goquo(P[#i - 1].Amount[d] * S, Tot), Tot)
+    loop 1 back use MulDistrib(Sum(P, #i - 1)[d], P[#i - 1].Amount[d], S)
+    loop 1 back use SumFrame(head(diffPeriods), diffPeriods, #i - 1)
+    // ---- loop 2: residue pushed to the tail
+    loop 2 invariant idx: 0 - 1 <= i && i <= n - 1 && n > 0 && len(dec) == n && len(dif) == n && minuendDenom == d
+    loop 2 invariant shape: forall k int :: 0 <= k && k < n ==> dec[k].Length == P[k].Length && dif[k].Length == P[k].Length
+            && cadd(dec[k].Amount, dif[k].Amount) == P[k].Amount && cnonneg(dec[k].Amount) && cnonneg(dif[k].Amount)
+            && dif[k].Amount == cone(d, dif[k].Amount[d])
+    loop 2 invariant residue: residue >= 0 && Sum(dif, n)[d] + residue == S && residue <= Sum(dec, i + 1)[d]
+    loop 2 init use MulCancel(totalSubtracted, S, Tot)
+    loop 2 init use SumSplit(minuendPeriods, decreasedPeriods, diffPeriods, len(minuendPeriods))
+    loop 2 back use SumUpdate(head(diffPeriods), diffPeriods, head(i), n)
+    loop 2 back use SumFrame(head(decreasedPeriods), decreasedPeriods, head(i))
+    loop 2 exit use SumUpdate(head(diffPeriods), diffPeriods, i, n)
+    loop 2 exitassert total: Sum(dif, n)[d] == S
+    loop 2 exitassert shape: len(dec) == n && len(dif) == n && (forall k int :: 0 <= k && k < n ==> dec[k].Length == P[k].Length && dif[k].Length == P[k].Length
+            && cadd(dec[k].Amount, dif[k].Amount) == P[k].Amount && cnonneg(dec[k].Amount) && cnonneg(dif[k].Amount)
+            && dif[k].Amount == cone(d, dif[k].Amount[d]))
+@*/
